@@ -1,6 +1,7 @@
 package props
 
 import (
+	"time"
 	"bytes"
 	"encoding/gob"
 	"encoding/hex"
@@ -244,13 +245,13 @@ func c08(r *core.Run) []*core.Violation {
 			}
 		}
 	}
-	// F4: another OS process, GOMAXPROCS=1, other TZ, variable set from the start
-	if len(viols) == 0 && t.Draw(4) == 0 {
+	// F4: another OS process, GOMAXPROCS=1, other TZ, variable set from the start, and (faketime build) another wall clock
+	if len(viols) == 0 && t.Draw(2) == 0 {
 		if h, what, err := followInSubprocess(hist); err != nil {
 			core.Harnessf("subprocess follower: %v", err)
 		} else if h != 0 {
 			viols = append(viols, vio("C08", "twin-diverged", h, map[string]string{"follower": "other-process"},
-				fmt.Sprintf("another OS process (GOMAXPROCS=1, TZ=Asia/Tokyo, %s set) diverged from the leader at height %d: %s", envFF, h, what)))
+				fmt.Sprintf("another OS process (GOMAXPROCS=1, TZ=Asia/Tokyo, %s set, wall clock of the Go runtime's fake time, i.e. 2009) diverged from the leader at height %d: %s", envFF, h, what)))
 		}
 		r.Stats.Probe("followers_other_process")
 	}
@@ -275,7 +276,14 @@ func FollowFile(path string) {
 	}
 	_, set := os.LookupEnv(envFF)
 	height, what := follow(&h, &followerPlan{Kind: "other-process", EnvSet: set}, nil)
-	out, _ := json.Marshal(map[string]any{"height": height, "what": what})
+	out, _ := json.Marshal(map[string]any{"height": height, "what": what, "wall_clock_year": time.Now().Year()})
+	if dst := os.Getenv("VERIF_FOLLOW_OUT"); dst != "" {
+		// a worker built with the runtime's fake clock frames everything written to stdout: hand the result over in a file
+		if err := os.WriteFile(dst, out, 0o600); err != nil {
+			panic(err)
+		}
+		return
+	}
 	fmt.Println(string(out))
 }
 
@@ -296,17 +304,31 @@ func followInSubprocess(h *History) (int64, string, error) {
 	if err != nil {
 		return 0, "", err
 	}
+	// a sibling binary built with -tags faketime runs under another wall clock (the Go runtime's fake clock starts in 2009
+	// and only advances while every goroutine sleeps): state that depends on time.Now() differs between leader and follower
+	resPath := path + ".result"
+	env := append(os.Environ(), "GOMAXPROCS=1", "TZ=Asia/Tokyo", envFF+"=1")
+	if _, err := os.Stat(exe + "-faketime"); err == nil {
+		exe += "-faketime"
+		env = append(env, "VERIF_FOLLOW_OUT="+resPath)
+	}
 	cmd := exec.Command(exe, "follow", "-tape", path)
-	cmd.Env = append(os.Environ(), "GOMAXPROCS=1", "TZ=Asia/Tokyo", envFF+"=1")
+	cmd.Env = env
 	var out, errb bytes.Buffer
 	cmd.Stdout, cmd.Stderr = &out, &errb
 	if err := cmd.Run(); err != nil {
 		return 0, "", fmt.Errorf("%v: %s", err, errb.String())
 	}
+	if bz, err := os.ReadFile(resPath); err == nil {
+		out.Reset()
+		out.Write(bz)
+		os.Remove(resPath)
+	}
 	var res struct {
 		Height int64  `json:"height"`
 		What   string `json:"what"`
 		Error  string `json:"error"`
+		Year   int    `json:"wall_clock_year"`
 	}
 	line := strings.TrimSpace(out.String())
 	if i := strings.LastIndex(line, "\n"); i >= 0 {
